@@ -46,6 +46,7 @@ class ItemInfo:
     rewrites: list
     n_loops: int
     in_impl: str | None = None
+    flags: dict = field(default_factory=dict)
 
 
 @dataclass
@@ -344,7 +345,7 @@ def build_item(spec: dict, sections: dict, substs: list, defines: set, log: list
                     emitted_name=(spec.get('as') or spec['name']) + ('__canary' if twin else ''),
                     src_line=it.line_of(it.start), out_line=0, out_end_line=0,
                     has_contract=bool(sections.get(('contract',), '').strip()), twin_name=None,
-                    rewrites=applied, n_loops=len(it.loops), in_impl=spec.get('in_impl'))
+                    rewrites=applied, n_loops=len(it.loops), in_impl=spec.get('in_impl'), flags=dict(spec))
     if not twin:
         log.extend(applied)
     return text, [(relfile, o) for o in origins], info
